@@ -279,8 +279,56 @@ def check_sf_structure(ctx):
             # conditional expressions inside the two values are alternatives like branches (split jointly)
             for _c, pair in _ifc(ast.Tuple(elts=[kv0, sv0], ctx=ast.Load())):
                 if isinstance(pair, ast.Tuple) and len(pair.elts) == 2:
-                    alts.append((pair.elts[0], pair.elts[1]))
-        for kv, sv in alts:
+                    d_all = dict(_dec)
+                    d_all.update({t_: o_ for t_, o_ in _c})
+                    alts.append((pair.elts[0], pair.elts[1], d_all))
+        # whatever sequence type the caller uses for the wave numbers (list, tuple, array): on every path that such a request can
+        # take through a smoothed evaluation, its values are what is returned
+        def _wn_truth(t, kind):
+            """truth of a test on the wave_numbers argument for one kind of request; None if it depends on something else"""
+            if isinstance(t, ast.BoolOp):
+                vals = [_wn_truth(v_, kind) for v_ in t.values]
+                if isinstance(t.op, ast.And):
+                    return False if any(v_ is False for v_ in vals) else (True if all(v_ is True for v_ in vals) else None)
+                return True if any(v_ is True for v_ in vals) else (False if all(v_ is False for v_ in vals) else None)
+            if isinstance(t, ast.UnaryOp) and isinstance(t.op, ast.Not):
+                v_ = _wn_truth(t.operand, kind)
+                return None if v_ is None else not v_
+            if isinstance(t, ast.Compare) and len(t.ops) == 1 and U(t.left) == wn:
+                c_ = t.comparators[0]
+                if isinstance(t.ops[0], (ast.Is, ast.IsNot)) and isinstance(c_, ast.Constant) and c_.value is None:
+                    return (kind == "None") == isinstance(t.ops[0], ast.Is)
+                if isinstance(t.ops[0], (ast.Eq, ast.NotEq)) and isinstance(c_, ast.Constant) and isinstance(c_.value, str):
+                    return (kind == "auto" and c_.value == "auto") == isinstance(t.ops[0], ast.Eq)
+            if isinstance(t, ast.Call) and U(t.func) == "isinstance" and len(t.args) == 2 and U(t.args[0]) == wn:
+                tn = [U(e_) for e_ in t.args[1].elts] if isinstance(t.args[1], ast.Tuple) else [U(t.args[1])]
+                KINDS = {"str": {"auto"}, "list": {"list"}, "tuple": {"tuple"}, "np.ndarray": {"ndarray"}, "numpy.ndarray": {"ndarray"}, "Sequence": {"list", "tuple", "auto"},
+                         "collections.abc.Sequence": {"list", "tuple", "auto"}, "Iterable": {"list", "tuple", "ndarray", "auto"}, "collections.abc.Iterable": {"list", "tuple", "ndarray", "auto"}}
+                if all(x_ in KINDS for x_ in tn):
+                    return any(kind in KINDS[x_] for x_ in tn)
+            return None
+
+        for kind in ("list", "tuple", "ndarray"):
+            for kv, sv, dec in alts:
+                feasible = True
+                for ttxt, outc in dec.items():
+                    try:
+                        tn_ = ast.parse(ttxt, mode="eval").body
+                        tv_ = _wn_truth(tn_, kind)
+                        if tv_ is None and isinstance(tn_, ast.Constant) and isinstance(tn_.value, bool):
+                            tv_ = tn_.value  # a flag that this path has already fixed to a constant
+                    except SyntaxError:
+                        tv_ = None
+                    if tv_ is not None and tv_ != outc:
+                        feasible = False
+                        break
+                if not feasible:
+                    continue
+                sx_ = strip_zero(sv, "1")
+                smoothed = isinstance(sx_, ast.Call) and isinstance(sx_.func, ast.Call) and U(sx_.func.func).split(".")[-1] == "SmoothData1D"
+                if smoothed and wn not in names_in(strip_zero(kv, "0")):
+                    bad = bad or (r, f"wave numbers given as a {kind} are replaced by `{U(strip_zero(kv, '0'))[:60]}` on a path through the smoothed evaluation")
+        for kv, sv, _d in alts:
             kx, sx = strip_zero(kv, "0"), strip_zero(sv, "1")
             if wn not in names_in(kx):
                 continue
@@ -548,3 +596,30 @@ def check_accumulator_dtype(ctx, quals, rule="DTYPE"):
                    f"`{U(bad[0])[:60] if bad else ''}` creates a working array in the image's own dtype: for a float32 or integer image the values accumulated in it (wave numbers, sums) "
                    "are rounded to that dtype or the in-place update raises, so the result is not the one of the same image stored as float64")
     return n
+
+
+def check_mode_order_in_length_scale(ctx, rule="PERMINV"):
+    """get_length_scale receives the spectrum as two arrays in the flattened order of the FFT modes.  Only order-free uses
+    (max, min, sum, moments, a smoother over all points) are independent of how the axes are ordered: `k_mag[1]` is "the
+    fundamental of the last axis", not the smallest wave number of the box."""
+    import ast as _ast
+
+    m = ctx.model
+    fi = m.func(LS)
+    fv = view(m, fi)
+    arrays = set()
+    for s_ in fv.statements():
+        if isinstance(s_, _ast.Assign) and isinstance(s_.targets[0], _ast.Tuple) and isinstance(s_.value, _ast.Call) and (fv.callee(s_.value) or U(s_.value.func)).endswith("get_structure_factor"):
+            arrays |= {e.id for e in s_.targets[0].elts if isinstance(e, _ast.Name)}
+    picked = []
+    for n_ in _ast.walk(fi.node):
+        if isinstance(n_, _ast.Subscript) and isinstance(n_.ctx, _ast.Load) and isinstance(n_.value, _ast.Name) and n_.value.id in arrays \
+                and isinstance(n_.slice, (_ast.Constant, _ast.UnaryOp)):
+            picked.append(n_)
+    if not arrays:
+        ctx.undecided(rule, LS + ":mode-order", fi, "spectrum arrays not found")
+        return 0
+    ctx.decide(not picked, rule, LS + ":mode-order", (fi, picked[0]) if picked else fi, "no single element of the flattened mode arrays is singled out",
+               f"`{U(picked[0]) if picked else ''}` picks one element of the flattened spectrum: which mode that is depends on the order of the axes (the first non-zero mode is the fundamental of the *last* "
+               "axis), so the length scale of a pattern along a longer axis is clipped or changed when the box is not cubic")
+    return 1
